@@ -611,10 +611,16 @@ def execute(program):
                             reject = 'extend-unfrozen'
                         elif cat is not None and cat in names:
                             reject = 'duplicate-category'
+                        # kinds without new definitions are sometimes simply not passed (default None),
+                        # and so is the category when it is None
+                        kwx = {}
+                        for k in KINDS:
+                            if specs[k] or (opi + len(k)) % 2:
+                                kwx[k] = list(specs[k])
+                        if cat is not None or opi % 3:
+                            kwx['category'] = cat
                         try:
-                            new_db = db.extended_with(category=cat, macros=list(specs['macros']),
-                                                      environments=list(specs['environments']),
-                                                      specials=list(specs['specials']), **kw)
+                            new_db = db.extended_with(**dict(kwx, **kw))
                             raised = None
                         except Exception as e:
                             raised = e
@@ -832,3 +838,7 @@ EXPECTED_PROBES = ['insert-in-the-middle', 'auto-category-added', 'filter-of-der
                    'extend-merged-into-auto-category']
 
 STATES_MEASURE = ('distinct canonical model states reached: category order, contents by spec tag, unknown-specs, frozen flag')
+
+# wall-clock guard per forked child (a program normally takes milliseconds to a second); only ever
+# turns a hang into 'timeout', which is confirmed twice before it is reported
+CHILD_WALL_S = 20
